@@ -376,6 +376,9 @@ type ledgerArm struct {
 	Site   ssa.CallInstruction
 	Pred   *ssa.BasicBlock // for phi-selected method values: the incoming edge's source
 	PhiBlk *ssa.BasicBlock
+	// At: for an accessor picked by a helper (handed back in a struct): the helper's
+	// return that picks it; the exec polarity of the arm is the one there
+	At ssa.Instruction
 }
 
 func isLedgerType(t types.Type) bool {
@@ -511,6 +514,8 @@ func (w *World) ledgerItemArgIndex(c ssa.CallInstruction) int {
 func (w *World) ledgerArmsOfValue(fv ssa.Value, c ssa.CallInstruction) []ledgerArm {
 	var arms []ledgerArm
 	var walk func(v ssa.Value, pred, phiBlk *ssa.BasicBlock, depth int) bool
+	var resultArms func(call *ssa.Call, f int, depth int) bool
+	var fieldArms func(a *ssa.Alloc, f int, at ssa.Instruction, depth int) bool
 	walk = func(v ssa.Value, pred, phiBlk *ssa.BasicBlock, depth int) bool {
 		if depth > 3 {
 			return false
@@ -530,8 +535,87 @@ func (w *World) ledgerArmsOfValue(fv ssa.Value, c ssa.CallInstruction) []ledgerA
 				}
 			}
 			return true
+		case *ssa.UnOp:
+			// a field of a local parameter object (a set of accessors picked by a helper)
+			if fa, ok := y.X.(*ssa.FieldAddr); ok && y.Op == token.MUL {
+				if a, isA := fa.X.(*ssa.Alloc); isA && privateStruct(a) {
+					return fieldArms(a, fa.Field, y, depth)
+				}
+			}
+		case *ssa.Field:
+			switch z := y.X.(type) {
+			case *ssa.UnOp:
+				if a, isA := z.X.(*ssa.Alloc); isA && z.Op == token.MUL && privateStruct(a) {
+					return fieldArms(a, y.Field, z, depth)
+				}
+			case *ssa.Call:
+				return resultArms(z, y.Field, depth)
+			}
 		}
 		return false
+	}
+	// the accessors a helper hands back in a struct: one arm per return of the
+	// helper, located at that return (its exec polarity is the helper's there)
+	resultArms = func(call *ssa.Call, f int, depth int) bool {
+		fn := call.Common().StaticCallee()
+		if fn == nil || !w.InModule(fn) || fn.Blocks == nil || depth > 3 {
+			return false
+		}
+		n := 0
+		for _, b := range fn.Blocks {
+			rt, ok := lastInstr(b).(*ssa.Return)
+			if !ok || b == fn.Recover {
+				continue
+			}
+			if len(rt.Results) != 1 {
+				return false
+			}
+			ld, ok := rt.Results[0].(*ssa.UnOp)
+			if !ok || ld.Op != token.MUL {
+				return false
+			}
+			a, ok := ld.X.(*ssa.Alloc)
+			if !ok || !privateStruct(a) || !assembledByField(a) {
+				return false
+			}
+			defs, zero := fieldDefsAt(a, f, ld)
+			if zero || len(defs) != 1 {
+				return false
+			}
+			if _, whole := defs[0].(wholeDef); whole {
+				return false
+			}
+			before := len(arms)
+			if !walk(defs[0], nil, nil, depth+1) {
+				return false
+			}
+			for i := before; i < len(arms); i++ {
+				if arms[i].Pred == nil {
+					arms[i].At = rt
+				}
+			}
+			n++
+		}
+		return n > 0
+	}
+	fieldArms = func(a *ssa.Alloc, f int, at ssa.Instruction, depth int) bool {
+		defs, zero := fieldDefsAt(a, f, at)
+		if zero || len(defs) == 0 {
+			return false
+		}
+		for _, dv := range defs {
+			if wd, whole := dv.(wholeDef); whole {
+				call, isCall := wd.Value.(*ssa.Call)
+				if !isCall || !resultArms(call, f, depth+1) {
+					return false
+				}
+				continue
+			}
+			if !walk(dv, nil, nil, depth+1) {
+				return false
+			}
+		}
+		return true
 	}
 	if walk(fv, nil, nil, 0) {
 		return arms
